@@ -74,10 +74,118 @@ class _RenameLocals(ast.NodeTransformer):
         return node
 
 
+class _SwapBranches(ast.NodeTransformer):
+    """if c: A else: B  ->  if not c: B else: A   (only statements with an else part)"""
+
+    def visit_If(self, node):
+        self.generic_visit(node)
+        if node.orelse:
+            return ast.copy_location(ast.If(test=ast.UnaryOp(op=ast.Not(), operand=node.test), body=node.orelse, orelse=node.body), node)
+        return node
+
+
+class _NoneTests(ast.NodeTransformer):
+    """x is not None  ->  not (x is None)"""
+
+    def visit_Compare(self, node):
+        self.generic_visit(node)
+        if len(node.ops) == 1 and isinstance(node.ops[0], ast.IsNot) and isinstance(node.comparators[0], ast.Constant) \
+                and node.comparators[0].value is None:
+            return ast.copy_location(ast.UnaryOp(op=ast.Not(), operand=ast.Compare(left=node.left, ops=[ast.Is()],
+                                                                                   comparators=node.comparators)), node)
+        return node
+
+
+class _AugAssign(ast.NodeTransformer):
+    """x += y  ->  x = x + y  for plain names that are never used as a list (no append / extend / list display on them)"""
+
+    def visit_FunctionDef(self, node):
+        listy = set()
+        for n in ast.walk(node):
+            if isinstance(n, ast.Call) and isinstance(n.func, ast.Attribute) and n.func.attr in ("append", "extend", "pop", "insert") \
+                    and isinstance(n.func.value, ast.Name):
+                listy.add(n.func.value.id)
+            if isinstance(n, ast.Assign) and isinstance(n.value, (ast.List, ast.ListComp, ast.Dict, ast.DictComp)):
+                for t in n.targets:
+                    if isinstance(t, ast.Name):
+                        listy.add(t.id)
+        self._listy = listy
+        self.generic_visit(node)
+        return node
+
+    def visit_AugAssign(self, node):
+        if isinstance(node.target, ast.Name) and node.target.id not in getattr(self, "_listy", set()) \
+                and not isinstance(node.value, (ast.List, ast.ListComp)):
+            return ast.copy_location(ast.Assign(targets=[ast.Name(id=node.target.id, ctx=ast.Store())],
+                                                value=ast.BinOp(left=ast.Name(id=node.target.id, ctx=ast.Load()), op=node.op,
+                                                                right=node.value)), node)
+        return node
+
+
+class _FStringConcat(ast.NodeTransformer):
+    """f"{a}_{b}"  ->  str(a) + "_" + str(b)   (no conversions / format specs)"""
+
+    def visit_JoinedStr(self, node):
+        self.generic_visit(node)
+        parts = []
+        for v in node.values:
+            if isinstance(v, ast.Constant):
+                parts.append(v)
+            elif isinstance(v, ast.FormattedValue) and v.conversion == -1 and v.format_spec is None:
+                parts.append(ast.Call(func=ast.Name(id="str", ctx=ast.Load()), args=[v.value], keywords=[]))
+            else:
+                return node
+        if not parts:
+            return node
+        out = parts[0]
+        for q in parts[1:]:
+            out = ast.BinOp(left=out, op=ast.Add(), right=q)
+        if isinstance(out, ast.Constant):
+            return node
+        return ast.copy_location(out, node)
+
+
+class _TempForSink(ast.NodeTransformer):
+    """self.append_z3_assertion(E) / self.set_z3_assertions(E)  ->  tmp = E; call(tmp)   (single positional argument)"""
+    SINKS = ("append_z3_assertion", "set_z3_assertions", "append_z3_list_of_assertions")
+
+    def __init__(self):
+        self.k = 0
+
+    def visit_Expr(self, node):
+        c = node.value
+        if isinstance(c, ast.Call) and isinstance(c.func, ast.Attribute) and c.func.attr in self.SINKS and len(c.args) == 1 \
+                and not c.keywords and not isinstance(c.args[0], (ast.Name, ast.Starred)):
+            self.k += 1
+            name = f"sink_arg_{self.k}"
+            a = ast.Assign(targets=[ast.Name(id=name, ctx=ast.Store())], value=c.args[0])
+            call = ast.Expr(value=ast.Call(func=c.func, args=[ast.Name(id=name, ctx=ast.Load())], keywords=[]))
+            return [ast.copy_location(a, node), ast.copy_location(call, node)]
+        return node
+
+
+class _EarlyContinue(ast.NodeTransformer):
+    """for ...: if c: BODY   ->   for ...: if not c: continue; BODY   (the if is the whole loop body, no else)"""
+
+    def visit_For(self, node):
+        self.generic_visit(node)
+        if len(node.body) == 1 and isinstance(node.body[0], ast.If) and not node.body[0].orelse and not node.orelse:
+            i = node.body[0]
+            guard = ast.If(test=ast.UnaryOp(op=ast.Not(), operand=i.test), body=[ast.Continue()], orelse=[])
+            node.body = [ast.copy_location(guard, i)] + i.body
+        return node
+
+
 GLOBAL_TRANSFORMS = {
     "unparse": lambda tree: tree,
     "flip-comparisons": lambda tree: _FlipCompare().visit(tree),
     "rename-locals": lambda tree: _RenameLocals().visit(tree),
+    "swap-branches": lambda tree: _SwapBranches().visit(tree),
+    "none-tests": lambda tree: _NoneTests().visit(tree),
+    "augassign": lambda tree: _AugAssign().visit(tree),
+    "fstring-concat": lambda tree: _FStringConcat().visit(tree),
+    "temp-for-sink": lambda tree: _TempForSink().visit(tree),
+    "early-continue": lambda tree: _EarlyContinue().visit(tree),
 }
 
 
